@@ -308,7 +308,7 @@ def dtype_of(t):
 
 def run(prog, rep, tier):
     f = need(prog, LG + "LGANM.sample")
-    S = Sym(prog, inline=lambda g: g.qname == U + "sampling_matrix")
+    S = Sym(prog, inline=inline_helpers(prog, "sempler.lganm", keep=[LG + "_parse_interventions"], also=[U + "sampling_matrix"]))
     run_function(S, f)
     ctor = [c for c in S.select("call", qname=f.qname) if c.target == "sempler.normal_distribution.NormalDistribution.__init__"]
     if len(ctor) != 1 or len(ctor[0].args) < 2:
